@@ -15,6 +15,7 @@ using namespace vh;
 static unsigned char* g_pages;
 static const std::size_t PG = 4096;
 static unsigned char g_copy[4096];
+static int g_timeouts = 0;
 
 template<avel::Cache_level L>
 static void level_cases(int lvl) {
@@ -37,7 +38,9 @@ static void level_cases(int lvl) {
                         if (n > (1u << 20) && (off % 21 != 0 || std::strcmp(pc.name, "valid") != 0)) continue;   // a few long runs only
                         const bool top = std::strcmp(pc.name, "top") == 0;
                         if (top && (n > 4097 || (n + off > 64 && n > 64))) continue;   // stay below the end of the address space
-                        if (n > (1u << 20) || top) alarm(25);   // watchdog: a hint loop that never terminates
+                        const bool watched = n > (1u << 20) || top;
+                        if (watched && g_timeouts >= 3) continue;   // three calls that did not return are evidence enough
+                        if (watched) alarm(20);                      // watchdog: a hint loop that never terminates
                         std::memcpy(g_copy, mid, PG);
                         const void* vp = p;
                         opaque(vp);
@@ -54,6 +57,7 @@ static void level_cases(int lvl) {
                             }
                         });
                         alarm(0);
+                        if (sg == SIGALRM) ++g_timeouts;
                         int changed = std::memcmp(g_copy, mid, PG) != 0;
                         char buf[256];
                         std::snprintf(buf, sizeof(buf),
